@@ -329,30 +329,29 @@ func PathShapes(maxOcc, nPreds int, withType bool) []Path {
 		if n == 1 {
 			res = append(res, atoms...)
 		}
-		// binary splits: seq and alt (flattened: left part is not itself the same operator)
+		// binary splits, NOT flattened: "a | (b | c)" and "(a | b) | c" are distinct spellings
+		// that the parser turns into nested alternatives / sequences
 		for k := 1; k < n; k++ {
 			for _, a := range exprs(k) {
 				for _, b := range exprs(n - k) {
-					if _, isSeq := a.p.(PSeq); !isSeq {
-						parts := []Path{a.p}
-						if bs, ok := b.p.(PSeq); ok {
-							parts = append(parts, bs.Parts...)
-						} else {
-							parts = append(parts, b.p)
-						}
-						res = append(res, item{PSeq{parts}, n})
-					}
-					if _, isAlt := a.p.(PAlt); !isAlt {
-						parts := []Path{a.p}
-						if bs, ok := b.p.(PAlt); ok {
-							parts = append(parts, bs.Parts...)
-						} else {
-							parts = append(parts, b.p)
-						}
-						res = append(res, item{PAlt{parts}, n})
-					}
+					res = append(res, item{PSeq{[]Path{a.p, b.p}}, n})
+					res = append(res, item{PAlt{[]Path{a.p, b.p}}, n})
 				}
 			}
+		}
+		// flat n-ary forms "a / b / c", "a | b | c"
+		if n >= 3 {
+			var flat func(k int, cur []Path)
+			flat = func(k int, cur []Path) {
+				if k == n {
+					res = append(res, item{PSeq{append([]Path{}, cur...)}, n}, item{PAlt{append([]Path{}, cur...)}, n})
+					return
+				}
+				for _, a := range atoms {
+					flat(k+1, append(cur, a.p))
+				}
+			}
+			flat(0, nil)
 		}
 		memo[n] = res
 		return res
